@@ -1,0 +1,176 @@
+//go:build verif
+
+// Contracts for govc (/verif): C35 "Local topology order is a strictly increasing unique cursor" (storage part).
+// Comment-only file. Key space and T-KV vocabulary: zz_contracts_c03_verif.go; iterator model: /verif/govc/trusted/badger.spec ("Iterators").
+
+package storage
+
+//@ -- ═════════ key space: TOPOLOGY | be64(order),  SNAPTOPO | hash,  SNAPSHOT | node | be64(round) | hash ═════════
+//@ -- Same conventions as the key space of zz_contracts_c03_verif.go (ASSUMED, argued from the constructors): the three prefixes are
+//@ -- prefix-free among all prefixes of badger_graph.go ("TOPOLOGY" vs "TRANSACTION": 'O' != 'R'; "SNAPTOPO" vs "SNAPSHOT": 'T' != 'S'; no
+//@ -- prefix is an initial segment of "TOPOLOGY"/"SNAPTOPO"/"SNAPSHOT" and none extends them), the payloads have fixed widths (8, 32, 32+8+32).
+//@ -- TopoKeyId(o) is meaningful for 0 <= o < 2^64 only (the be64 encoding). Every topology key carries the prefix graphPrefixTopology.
+//@ uninterp TopoKeyId(o mathint) mathint
+//@ uninterp SnapTopoKeyId(h mathint) mathint
+//@ uninterp SnapshotKeyId(n mathint, r mathint, h mathint) mathint
+//@ axiom forall o mathint :: {TopoKeyId(o)} 0 <= o && o < 18446744073709551616 ==> keykind(TopoKeyId(o)) == 7 && keynum(TopoKeyId(o)) == o && badger.keypfx(TopoKeyId(o), strkey(graphPrefixTopology)) == 0
+//@ axiom forall h mathint :: {SnapTopoKeyId(h)} keykind(SnapTopoKeyId(h)) == 8 && keyhid(SnapTopoKeyId(h)) == h && badger.keypfx(SnapTopoKeyId(h), strkey(graphPrefixTopology)) != 0
+//@ axiom forall n, r, h mathint :: {SnapshotKeyId(n, r, h)} keykind(SnapshotKeyId(n, r, h)) == 9
+//@ -- byte order of the fixed-width big-endian keys of ONE prefix == numeric order (binary.BigEndian: the most significant byte comes first)
+//@ axiom forall x, y mathint :: {badger.keylt(TopoKeyId(x), TopoKeyId(y))} 0 <= x && x < 18446744073709551616 && 0 <= y && y < 18446744073709551616 ==> (badger.keylt(TopoKeyId(x), TopoKeyId(y)) <==> x < y)
+//@ spec TP(o mathint) mathint = TopoKeyId(o)
+//@ spec STK(h crypto.Hash) mathint = SnapTopoKeyId(kvval(h))
+//@ spec IsTopoKey(k mathint) bool = k == TopoKeyId(keynum(k)) && 0 <= keynum(k) && keynum(k) < 18446744073709551616
+
+//@ assume func graphTopologyKey
+//@   modifies nothing
+//@   ensures fresh(result) && len(result) > 0 && kvkey(result) == TP(order)
+//@ -- graphTopologyOrder slices key[8:] and reads 8 bytes: it panics on anything shorter than a topology key
+//@ assume func graphTopologyOrder
+//@   requires [topo-key] IsTopoKey(kvkey(key))
+//@   modifies nothing
+//@   ensures result == keynum(kvkey(key))
+//@ assume func graphSnapTopologyKey
+//@   modifies nothing
+//@   ensures fresh(result) && len(result) > 0 && kvkey(result) == STK(hash)
+//@ assume func graphSnapshotKey
+//@   modifies nothing
+//@   ensures fresh(result) && len(result) > 0 && kvkey(result) == SnapshotKeyId(kvval(nodeId), round, kvval(snap))
+
+//@ -- ═════════ representation invariants of the snapshots DB (requires of the readers; established and preserved by writeTopology, the
+//@ -- only function that Sets a key with one of the two prefixes) ═════════
+//@ -- TopoOK: every entry whose key starts with "TOPOLOGY" is a topology key TOPOLOGY|be64(o).
+//@ spec TopoOK(t badger.Txn) bool = forall k mathint :: {badger.kvget(t, k)} badger.kvget(t, k) != 0 && badger.keypfx(k, strkey(graphPrefixTopology)) == 0 ==> IsTopoKey(k)
+//@ -- SnapTopoOK: the value of every SNAPTOPO entry is (the bytes of) a topology key.
+//@ spec SnapTopoOK(t badger.Txn) bool = forall k mathint :: {badger.kvget(t, k)} badger.kvget(t, k) != 0 && keykind(k) == 8 ==> IsTopoKey(badger.kvget(t, k))
+
+//@ -- At(t, o): id of the value stored at topology position o (the SNAPSHOT key of the snapshot), 0 = position free.
+//@ spec At(t badger.Txn, o mathint) mathint = badger.kvget(t, TP(o))
+
+//@ -- PH(s): the payload hash of the snapshot object s (common/zz_contracts_verif.go, clause [deterministic] of (*Snapshot).PayloadHash)
+//@ spec PH(s *common.Snapshot) crypto.Hash = common.SnapPH(common.SnapSrc(s), s.NodeId, s.RoundNumber, s.Timestamp, len(s.Transactions))
+//@ -- Stored(t, o): id of the encoded snapshot the position o leads to (TOPOLOGY[o] is the SNAPSHOT key, whose value is the encoding)
+//@ spec Stored(t badger.Txn, o mathint) mathint = badger.kvget(t, badger.kvget(t, TP(o)))
+//@ spec U64(x mathint) bool = 0 <= x && x < 18446744073709551616
+
+//@ -- ═════════ cursor listing ═════════
+//@ -- "Listing snapshots from a cursor returns them in increasing position order, starting at that cursor, with each snapshot's own
+//@ -- position and payload hash": the result is the run of OCCUPIED positions >= topologyOffset in increasing order without gaps
+//@ -- ([from-cursor] nothing occupied between the cursor and the first element, [contiguous] nothing between two neighbours, [complete]
+//@ -- nothing after the last one unless the count limit was hit), every element is the decoding of what is stored at its position, carries
+//@ -- that position and the payload hash of itself. On an error return the elements read so far are returned and satisfy all of it except [complete].
+//@ func readSnapshotsSinceTopology
+//@   property C35
+//@   requires txn != nil && TopoOK(*txn)
+//@   modifies nothing
+//@   ensures [limit] len(result0) <= count
+//@   ensures [own-position] forall j int :: {result0[j]} 0 <= j && j < len(result0) ==> result0[j] != nil && result0[j].Snapshot != nil && topologyOffset <= result0[j].TopologicalOrder && At(*txn, result0[j].TopologicalOrder) != 0
+//@   ensures [stored] forall j int :: {result0[j]} 0 <= j && j < len(result0) ==> common.SnapSrc(result0[j].Snapshot) == Stored(*txn, result0[j].TopologicalOrder)
+//@   ensures [payload-hash] forall j int :: {result0[j]} 0 <= j && j < len(result0) ==> result0[j].Hash == PH(result0[j].Snapshot)
+//@   ensures [increasing] forall i, j int :: {result0[i], result0[j]} 0 <= i && i < j && j < len(result0) ==> result0[i].TopologicalOrder < result0[j].TopologicalOrder
+//@   ensures [from-cursor] len(result0) > 0 ==> forall x mathint :: {At(*txn, x)} topologyOffset <= x && x < result0[0].TopologicalOrder ==> At(*txn, x) == 0
+//@   ensures [contiguous] forall j int, x mathint :: {result0[j], At(*txn, x)} 0 <= j && j + 1 < len(result0) && result0[j].TopologicalOrder < x && x < result0[j+1].TopologicalOrder ==> At(*txn, x) == 0
+//@   ensures [complete] err == nil && len(result0) < count ==> forall x mathint :: {At(*txn, x)} U64(x) && (len(result0) == 0 ? topologyOffset <= x : result0[len(result0)-1].TopologicalOrder < x) ==> At(*txn, x) == 0
+//@   loop 0 invariant [limit] len(snapshots) <= count && fresh(snapshots)
+//@   loop 0 invariant [own-position] forall j int :: {snapshots[j]} 0 <= j && j < len(snapshots) ==> snapshots[j] != nil && allocated(snapshots[j]) && snapshots[j].Snapshot != nil && allocated(snapshots[j].Snapshot) &&
+//@       topologyOffset <= snapshots[j].TopologicalOrder && At(*txn, snapshots[j].TopologicalOrder) != 0
+//@   loop 0 invariant [stored] forall j int :: {snapshots[j]} 0 <= j && j < len(snapshots) ==> common.SnapSrc(snapshots[j].Snapshot) == Stored(*txn, snapshots[j].TopologicalOrder)
+//@   loop 0 invariant [payload-hash] forall j int :: {snapshots[j]} 0 <= j && j < len(snapshots) ==> snapshots[j].Hash == PH(snapshots[j].Snapshot)
+//@   loop 0 invariant [cursor] badger.itkey(*it) != 0 ==> IsTopoKey(badger.itkey(*it)) && badger.itget(it, badger.itkey(*it)) != 0 && topologyOffset <= keynum(badger.itkey(*it))
+//@   loop 0 invariant [above] forall j int :: {snapshots[j]} 0 <= j && j < len(snapshots) && badger.itkey(*it) != 0 ==> snapshots[j].TopologicalOrder < keynum(badger.itkey(*it))
+//@   loop 0 invariant [increasing] forall i, j int :: {snapshots[i], snapshots[j]} 0 <= i && i < j && j < len(snapshots) ==> snapshots[i].TopologicalOrder < snapshots[j].TopologicalOrder
+//@   loop 0 invariant [next] forall x mathint :: {badger.itget(it, TP(x))} U64(x) && (len(snapshots) == 0 ? topologyOffset <= x : snapshots[len(snapshots)-1].TopologicalOrder < x) && badger.itget(it, TP(x)) != 0 ==>
+//@       badger.itkey(*it) != 0 && keynum(badger.itkey(*it)) <= x
+//@   loop 0 invariant [from-cursor] len(snapshots) > 0 ==> forall x mathint :: {At(*txn, x)} topologyOffset <= x && x < snapshots[0].TopologicalOrder ==> At(*txn, x) == 0
+//@   loop 0 invariant [contiguous] forall j int, x mathint :: {snapshots[j], At(*txn, x)} 0 <= j && j + 1 < len(snapshots) && snapshots[j].TopologicalOrder < x && x < snapshots[j+1].TopologicalOrder ==> At(*txn, x) == 0
+
+//@ -- ═════════ lookup by hash ═════════
+//@ -- "Looking a snapshot up by hash returns the same position": the position is the one recorded in the reverse index SNAPTOPO[hash]
+//@ -- (writeTopology [written]: that is TOPOLOGY|be64(o) for the position o the snapshot was stored at), the snapshot is the decoding of
+//@ -- what that position leads to, and its Hash is the hash asked for.
+//@ func readSnapshotWithTopo
+//@   property C35
+//@   requires txn != nil && SnapTopoOK(*txn)
+//@   modifies nothing
+//@   ensures [unknown-hash] err == nil && result0 == nil ==> badger.kvget(*txn, STK(hash)) == 0
+//@   ensures [found] result0 != nil ==> err == nil && result0.Snapshot != nil && badger.kvget(*txn, STK(hash)) != 0 && result0.Hash == hash
+//@   ensures [position] result0 != nil ==> badger.kvget(*txn, STK(hash)) == TP(result0.TopologicalOrder)
+//@   ensures [stored] result0 != nil ==> common.SnapSrc(result0.Snapshot) == Stored(*txn, result0.TopologicalOrder)
+
+//@ -- ═════════ the last position ═════════
+//@ -- readLastTopology: the greatest occupied position (0 when nothing is stored; position 0 itself is the genesis snapshot's).
+//@ func readLastTopology
+//@   property C35
+//@   requires txn != nil && TopoOK(*txn)
+//@   modifies nothing
+//@   ensures [upper] forall x mathint :: {At(*txn, x)} U64(x) && At(*txn, x) != 0 ==> x <= result
+//@   ensures [occupied] result != 0 ==> At(*txn, result) != 0
+//@   -- proof guidance (checked right after the ValidForPrefix call, then assumed): a positioned iterator sits on an entry of the view, not above
+//@   -- the key it was sought at, and -- reverse Seek -- at or above every occupied position
+//@   hint after ValidForPrefix [on-entry] badger.itkey(*it) != 0 ==> badger.kvget(*txn, badger.itkey(*it)) != 0 && !badger.keylt(TP(18446744073709551615), badger.itkey(*it))
+//@   hint after ValidForPrefix [at-or-above] forall x mathint :: {At(*txn, x)} U64(x) && At(*txn, x) != 0 ==> badger.itkey(*it) != 0 && !badger.keylt(badger.itkey(*it), TP(x))
+
+//@ -- ═════════ the writer ═════════
+//@ -- "Each stored snapshot gets a unique topology position": a position is written only when it is FREE -- the explicit panic is the
+//@ -- rejection of an occupied position (and of a failed lookup), hence `maypanic`; [free] holds at EVERY return, so an occupied position
+//@ -- never leads to a return -- and both indices are written together: TOPOLOGY[o] = SNAPSHOT key of the snapshot, SNAPTOPO[payload
+//@ -- hash] = TOPOLOGY key of o. On an error of the second Set only TOPOLOGY[o] was buffered (the caller discards the transaction).
+//@ func writeTopology
+//@   property C35
+//@   maypanic
+//@   requires txn != nil && snap != nil && snap.Snapshot != nil
+//@   requires [version] snap.Version == common.SnapshotVersionCommonEncoding -- PayloadHash panics otherwise; snapshots reach the store only after validation
+//@   modifies *txn
+//@   ensures [free] old(At(*txn, snap.TopologicalOrder)) == 0
+//@   ensures [written] err == nil ==> At(*txn, snap.TopologicalOrder) == SnapshotKeyId(kvval(snap.NodeId), snap.RoundNumber, kvval(PH(snap.Snapshot))) &&
+//@       badger.kvget(*txn, STK(PH(snap.Snapshot))) == TP(snap.TopologicalOrder)
+//@   ensures [frame] forall k mathint :: {badger.kvget(*txn, k)} k != TP(snap.TopologicalOrder) && k != STK(PH(snap.Snapshot)) ==> badger.kvget(*txn, k) == old(badger.kvget(*txn, k))
+//@   ensures [partial] err != nil ==> badger.kvget(*txn, STK(PH(snap.Snapshot))) == old(badger.kvget(*txn, STK(PH(snap.Snapshot))))
+//@   ensures [keeps-topo-ok] old(TopoOK(*txn)) ==> TopoOK(*txn)
+//@   ensures [keeps-snaptopo-ok] old(SnapTopoOK(*txn)) ==> SnapTopoOK(*txn)
+
+//@ -- ═════════ the public observation points: one read-only transaction over the committed state each ═════════
+//@ spec DbTopoOK(d badger.DB) bool = forall k mathint :: {badger.dbget(d, k)} badger.dbget(d, k) != 0 && badger.keypfx(k, strkey(graphPrefixTopology)) == 0 ==> IsTopoKey(k)
+//@ spec DbSnapTopoOK(d badger.DB) bool = forall k mathint :: {badger.dbget(d, k)} badger.dbget(d, k) != 0 && keykind(k) == 8 ==> IsTopoKey(badger.dbget(d, k))
+//@ spec DbAt(d badger.DB, o mathint) mathint = badger.dbget(d, TP(o))
+//@ spec DbStored(d badger.DB, o mathint) mathint = badger.dbget(d, badger.dbget(d, TP(o)))
+
+//@ func (s *BadgerStore) ReadSnapshotsSinceTopology
+//@   property C35
+//@   requires s != nil && s.snapshotsDB != nil && DbTopoOK(*s.snapshotsDB)
+//@   modifies nothing
+//@   ensures [too-many] count > 500 ==> err != nil && len(result0) == 0
+//@   ensures [limit] len(result0) <= count
+//@   ensures [own-position] forall j int :: {result0[j]} 0 <= j && j < len(result0) ==> result0[j] != nil && result0[j].Snapshot != nil && topologyOffset <= result0[j].TopologicalOrder && DbAt(*s.snapshotsDB, result0[j].TopologicalOrder) != 0
+//@   ensures [stored] forall j int :: {result0[j]} 0 <= j && j < len(result0) ==> common.SnapSrc(result0[j].Snapshot) == DbStored(*s.snapshotsDB, result0[j].TopologicalOrder)
+//@   ensures [payload-hash] forall j int :: {result0[j]} 0 <= j && j < len(result0) ==> result0[j].Hash == PH(result0[j].Snapshot)
+//@   ensures [increasing] forall i, j int :: {result0[i], result0[j]} 0 <= i && i < j && j < len(result0) ==> result0[i].TopologicalOrder < result0[j].TopologicalOrder
+//@   ensures [from-cursor] len(result0) > 0 ==> forall x mathint :: {DbAt(*s.snapshotsDB, x)} topologyOffset <= x && x < result0[0].TopologicalOrder ==> DbAt(*s.snapshotsDB, x) == 0
+//@   ensures [contiguous] forall j int, x mathint :: {result0[j], DbAt(*s.snapshotsDB, x)} 0 <= j && j + 1 < len(result0) && result0[j].TopologicalOrder < x && x < result0[j+1].TopologicalOrder ==> DbAt(*s.snapshotsDB, x) == 0
+//@   ensures [complete] err == nil && len(result0) < count ==> forall x mathint :: {DbAt(*s.snapshotsDB, x)} U64(x) && (len(result0) == 0 ? topologyOffset <= x : result0[len(result0)-1].TopologicalOrder < x) ==> DbAt(*s.snapshotsDB, x) == 0
+
+//@ func (s *BadgerStore) ReadSnapshot
+//@   property C35
+//@   requires s != nil && s.snapshotsDB != nil && DbSnapTopoOK(*s.snapshotsDB)
+//@   modifies nothing
+//@   ensures [unknown-hash] err == nil && result0 == nil ==> badger.dbget(*s.snapshotsDB, STK(hash)) == 0
+//@   ensures [found] result0 != nil ==> err == nil && result0.Snapshot != nil && result0.Hash == hash
+//@   ensures [position] result0 != nil ==> badger.dbget(*s.snapshotsDB, STK(hash)) == TP(result0.TopologicalOrder)
+//@   ensures [stored] result0 != nil ==> common.SnapSrc(result0.Snapshot) == DbStored(*s.snapshotsDB, result0.TopologicalOrder)
+
+//@ -- ASSUMED (not C35's subject; LastSnapshot only collects the transaction bodies with it): readTransaction reads through the transaction
+//@ -- and writes nothing visible. Its body is NOT verified here: on a Get error other than ErrKeyNotFound it dereferences the nil item
+//@ -- (known, DESIGN.md §6 "storage.readTransaction dereferences a nil item"), which is why it is not simply inlined.
+//@ assume func readTransaction
+//@   requires txn != nil
+//@   modifies nothing
+
+//@ -- LastSnapshot seeds the node's counter after a restart (kernel.getTopologyCounter): the snapshot at the GREATEST occupied position.
+//@ -- maypanic: the explicit panics are the documented reactions to a store without any snapshot or a read error at startup.
+//@ func (s *BadgerStore) LastSnapshot
+//@   property C35
+//@   maypanic
+//@   requires s != nil && s.snapshotsDB != nil && DbTopoOK(*s.snapshotsDB)
+//@   ensures [greatest] result0 != nil && result0.Snapshot != nil && DbAt(*s.snapshotsDB, result0.TopologicalOrder) != 0 &&
+//@       forall x mathint :: {DbAt(*s.snapshotsDB, x)} U64(x) && DbAt(*s.snapshotsDB, x) != 0 ==> x <= result0.TopologicalOrder
+//@   ensures [payload-hash] result0.Hash == PH(result0.Snapshot)
